@@ -240,6 +240,14 @@ func runC19(ctx *Ctx) error {
 		setFramework(&cfg, allFrameworks[i%7])
 		prune := r.Chance(70)
 		cfg.OutputOptions.SkipPrune = !prune
+		if comps, ok := doc["components"].(J); ok && r.Chance(30) {
+			// exclude-schemas leaves out Go types; the embedded specification is not affected by it
+			if sc, ok := comps["schemas"].(J); ok && len(sc) > 0 {
+				names := SortedKeys(sc)
+				cfg.OutputOptions.ExcludeSchemas = []string{names[r.Intn(len(names))]}
+				ctx.Res.Count("exclude-schemas")
+			}
+		}
 		ctx.Res.Eval(J{"doc": Hash(doc), "filter": fc, "prune": prune}, true)
 		replay := J{"doc": doc, "cfg": cfg}
 		spec, err := loadDoc(doc)
